@@ -38,6 +38,8 @@ def main():
     ap.add_argument("name")
     ap.add_argument("--props")
     ap.add_argument("--novalidate", action="store_true")
+    ap.add_argument("--demo-pkg", default="indextree")
+    ap.add_argument("--demo-args", default="")
     a = ap.parse_args()
     manifest = json.load(open(os.path.join(HERE, "MANIFEST.json")))
     props = a.props.split(",") if a.props else [c["property_id"] for c in manifest["checks"]]
@@ -53,13 +55,13 @@ def main():
         env = {"CARGO_TARGET_DIR": tgt}
         if not a.novalidate:
             # demo passes on the unchanged tree
-            shutil.copy(demo, os.path.join(d, "indextree", "tests", "seed_demo.rs"))
-            rc, out = sh(["cargo", "test", "--offline", "-p", "indextree", "--test", "seed_demo"], d, env)
-            ran.append("unchanged tree: cargo test -p indextree --test seed_demo -> exit %d" % rc)
+            shutil.copy(demo, os.path.join(d, a.demo_pkg, "tests", "seed_demo.rs"))
+            rc, out = sh(["cargo", "test", "--offline", "-p", a.demo_pkg, "--test", "seed_demo"] + a.demo_args.split(), d, env)
+            ran.append("unchanged tree: cargo test -p %s --test seed_demo %s -> exit %d" % (a.demo_pkg, a.demo_args, rc))
             if rc != 0:
                 print("REJECT: demo does not pass on the unchanged tree\n" + out[-1500:])
                 ok = False
-            os.remove(os.path.join(d, "indextree", "tests", "seed_demo.rs"))
+            os.remove(os.path.join(d, a.demo_pkg, "tests", "seed_demo.rs"))
         rc, out = sh(["git", "apply", "--check", patch], REPO)
         rc2, out2 = sh(["patch", "-p1", "-i", patch], d)
         ran.append("patch -p1 -> exit %d" % rc2)
@@ -72,13 +74,13 @@ def main():
             if rc != 0:
                 print("REJECT: existing suite fails with the patch\n" + out[-2500:])
                 ok = False
-            shutil.copy(demo, os.path.join(d, "indextree", "tests", "seed_demo.rs"))
-            rc, out = sh(["cargo", "test", "--offline", "-p", "indextree", "--test", "seed_demo"], d, env)
-            ran.append("patched tree: cargo test -p indextree --test seed_demo -> exit %d (must fail)" % rc)
+            shutil.copy(demo, os.path.join(d, a.demo_pkg, "tests", "seed_demo.rs"))
+            rc, out = sh(["cargo", "test", "--offline", "-p", a.demo_pkg, "--test", "seed_demo"] + a.demo_args.split(), d, env)
+            ran.append("patched tree: cargo test -p %s --test seed_demo %s -> exit %d (must fail)" % (a.demo_pkg, a.demo_args, rc))
             if rc == 0:
                 print("REJECT: demo passes with the patch")
                 ok = False
-            os.remove(os.path.join(d, "indextree", "tests", "seed_demo.rs"))
+            os.remove(os.path.join(d, a.demo_pkg, "tests", "seed_demo.rs"))
         shutil.rmtree(tgt, ignore_errors=True)
         results = {}
         if ok:
